@@ -30,7 +30,7 @@ from ..core import Ctx, ExtractError, load_corpus
 
 ID = "C18"
 LEVEL = "proof"
-STRENGTH = "partial"   # clauses (1) allowed-iff, (2) returned JSON patch, (3) transformations are guarded: see LEVEL_TEXT
+STRENGTH = "partial"   # clauses (1) returned JSON patch, (2) transformations rest on hypotheses: see LEVEL_TEXT
 ENGINES = ["lean-model", "pyextract", "purediff"]
 LEVEL_TEXT = (
     "PARTIAL. Unguarded Lean theorems (no size/depth bounds): allowed_iff, status_iff_denied, error_priority (minimal "
@@ -39,14 +39,14 @@ LEVEL_TEXT = (
     "matching), gate_enforces_operations, restricted_handler_skipped, hinted_only_that_handler; mutation for ALL "
     "mapping bodies and ALL patches (code after 74dc18a): apply_total, fidelity (leaves of the mutated body = leaves "
     "of the RFC 7386 merge at every path; dropEmpty_leafEq relates that to the drop-empty normal form, converse not "
-    "proved), apply_nonmapping_root_raises (the one guard is needed); serve_warnings_order; serve_allowed_exact (what "
-    "the code does: allowed iff none of the selected handlers that are the LAST of their id raised — outcomes are "
-    "keyed by id). Clauses proved only under a guard / hypothesis: (1) 'allowed iff no selected handler raised' is "
-    "FALSE of the code for two different functions under one id (same_id_denial_lost_witness, open finding C18-F6, "
-    "replayed from the corpus); serve_allowed_iff_partial holds when the selected ids are pairwise different. (2) 'the "
+    "proved), apply_nonmapping_root_raises (the one guard is needed); whole review (code after 2903555: one outcome "
+    "per selected handler, key (index, id)): serve_allowed_iff (allowed iff no function with a matching registration "
+    "raised — unguarded, also for two different functions under one id, the repaired C18-F6), serve_errors_complete "
+    "(the status is chosen among ALL selected handlers' errors), serve_warnings_order. Clauses proved only under a "
+    "hypothesis: (1) 'the "
     "returned JSON patch applied to the object': returned_patch_fidelity takes, as a hypothesis, that jsonpatch's "
     "output for THIS review reproduces the wanted body (pointwise contract) — checked on every generated case by an "
-    "independent RFC 6902 applier; jsonpatch 1.33 fails it on the inputs of the open findings C18-F4/C18-F5. (3) "
+    "independent RFC 6902 applier; jsonpatch 1.33 fails it on the inputs of the open findings C18-F4/C18-F5. (2) "
     "'transformations applied': fidelity_fns for the two framework functions (block_deletion/allow_deletion), whenever "
     "code path and reference path both return; the model lets them raise on EVERY non-list finalizers / non-mapping "
     "metadata (the real functions are also silent on a few falsy or key-free ill-typed values): such bodies are outside "
@@ -76,9 +76,8 @@ THEOREMS = [
     ("Kopf.Props.C18", "Kopf.C18.fidelity"),
     ("Kopf.Props.C18", "Kopf.C18.fidelity_fns"),
     ("Kopf.Props.C18", "Kopf.C18.returned_patch_fidelity"),
-    ("Kopf.Props.C18", "Kopf.C18.serve_allowed_exact"),
-    ("Kopf.Props.C18", "Kopf.C18.serve_allowed_iff_partial"),
-    ("Kopf.Props.C18", "Kopf.C18.same_id_denial_lost_witness"),
+    ("Kopf.Props.C18", "Kopf.C18.serve_allowed_iff"),
+    ("Kopf.Props.C18", "Kopf.C18.serve_errors_complete"),
     ("Kopf.Props.C18", "Kopf.C18.serve_warnings_order"),
     ("Kopf.Props.C18", "Kopf.C18.apply_nonmapping_root_raises"),
     ("Kopf.Props.C18", "Kopf.C18.dropEmpty_leafEq"),
@@ -130,7 +129,7 @@ ASSUMPTIONS = [
     "JSON numbers are integers in generated cases (no floats)",
     "the other filters of match() (selector, labels, annotations, fields, when) are C15's subject: an opaque boolean here",
     "registries with ONE function registered several times under its id (stacked decorators) and with TWO different "
-    "functions under one id are both modelled (dedup key (fn, id); outcomes dict keyed by id) and generated",
+    "functions under one id are both modelled (dedup key (fn, id); one outcome per selected handler) and generated",
     "transformation functions are the two the framework queues itself (finalizers.block_deletion/allow_deletion)",
 ]
 
@@ -181,6 +180,10 @@ PATCH_ANCHOR = ("if jsonpatch:\n    encoded_patch: str = base64.b64encode(json.d
 FALSY_PATCH_ANCHORS = {"Patch.__bool__": "return len(self) > 0 or bool(self.fns)",
                        "Patch.as_json_patch": "if not self:\n    return []"}
 CLIENT_CONFIG_ANCHOR = "_inject_handler_id(client_config, handler.id)"
+SERVE_ANCHORS = ["handlers_ = registry._webhooks.get_handlers(cause)",
+                 "outcomes: dict[Any, execution.Outcome] = {}"]
+SERVE_LOOP_HEAD = "for index, handler in enumerate(handlers_):"
+SERVE_LOOP_LAST = "outcomes.update({(index, id): outcome for id, outcome in handler_outcomes.items()})"
 
 
 def _int_chain(e: ast.expr, tr: pyextract.BoolTranslator) -> str:
@@ -271,6 +274,18 @@ def extract(ctx: Ctx) -> None:
     conj = [pyextract.norm(v) for v in rets[0].value.values]
     if "_matches_subresource(handler, cause)" not in conj:
         raise ExtractError("registries.match no longer includes _matches_subresource(handler, cause)")
+    # -- serve_admission_request: one execution and one outcome per selected handler (key (index, id))
+    sv = pyextract.find_def(atree, "serve_admission_request")
+    sv_stmts = pyextract.body_without_docstring(sv)   # type: ignore[arg-type]
+    sv_texts = [pyextract.norm(st) for st in sv_stmts]
+    for anchor in SERVE_ANCHORS:
+        if anchor not in sv_texts:
+            raise ExtractError(f"serve_admission_request: statement changed or missing: `{anchor}`")
+    loops = [st for st in sv_stmts if isinstance(st, ast.For) and pyextract.norm(st).startswith(SERVE_LOOP_HEAD)]
+    if len(loops) != 1 or loops[0].orelse or pyextract.norm(loops[0].body[-1]) != SERVE_LOOP_LAST \
+            or "handlers=[handler]" not in pyextract.norm(loops[0]):
+        raise ExtractError("serve_admission_request: the selected handlers are no longer executed one by one with "
+                           "their outcomes kept under (index, id)")
     # -- the falsy-patch shortcut of as_json_patch
     ptree = pyextract.parse_file(ctx.repo / "kopf/_cogs/structs/patches.py")
     for qual, anchor in FALSY_PATCH_ANCHORS.items():
@@ -1281,21 +1296,20 @@ async def eval_serve(env: dict, case: dict) -> Result:
     if got is not None and (content or fns_decl) and not res.diff_suspect:
         res.reqs.append(("apply(serve json patch applied)", ["C18.apply", body, content, fns_decl], ["ok", got]))
     # ---- allowed / status / warnings
-    # `outcomes` as the code keeps them: a dict keyed by the handler id (later same-id outcomes overwrite)
-    by_id: dict[str, Any] = {}
-    for k, e in zip(log, raised_list):
-        by_id[k[1]] = e
-    collapsed = list(by_id.values())
+    # the property: EVERY selected handler's outcome counts (one outcome per invocation, also for same-id handlers)
     strict = Result()
-    oracle_response(strict, resp, raised_list, issued)      # the property: every selected handler counts
-    if strict.fails and len(collapsed) != len(raised_list):
+    oracle_response(strict, resp, raised_list, issued)
+    if strict.fails and len({k[1] for k in log}) < len(log):
+        by_id: dict[str, Any] = {}
+        for k, e in zip(log, raised_list):
+            by_id[k[1]] = e
         lenient = Result()
-        oracle_response(lenient, resp, collapsed, issued)
+        oracle_response(lenient, resp, list(by_id.values()), issued)
         if not lenient.fails:
+            # the shape of the repaired C18-F6: the response is the one of an id-keyed outcomes dict
             lost = [k for k, e in zip(log, raised_list) if e is not None and by_id[k[1]] is not e]
             res.fail(f"{strict.fails[0][0]} — the outcome of {lost or log} was overwritten by a later handler with the same id",
                      SIG_SAMEID)
-            res.tags.append("same-id:outcome-lost")
             strict.fails = []
     res.fails.extend(strict.fails)
     if len({k[1] for k in log}) < len(log):
@@ -1306,7 +1320,7 @@ async def eval_serve(env: dict, case: dict) -> Result:
         res.fail("patch / patchType are not 'present exactly when there are operations'",
                  {"site": "admission.build_response", "shape": "patch encoding"})
     impl = _resp_view(r)
-    res.reqs.append(("response(serve)", ["C18.response", collapsed, issued, ops], ["ok", impl]))
+    res.reqs.append(("response(serve)", ["C18.response", raised_list, issued, ops], ["ok", impl]))
     res.reqs.append(("serve", ["C18.serve", _entries(env, case, raised, labels_now), cj_all, body, content, fns_decl, ops], ["ok", impl]))
     if ops and not r.get("allowed"):
         res.tags.append("patch-on-denial")
